@@ -3,9 +3,13 @@ with which bounds.  See DESIGN.md sections 6 and 9."""
 
 DEFAULT_STUBS = ["std :: fmt :: format"]
 
+# The instrumented single-threaded lock replaces std::sync::RwLock in every
+# variant: std's futex RwLock drags contended-path spin loops into every
+# acquisition (unwound to the bound by CBMC) and is not the subject of any
+# property except C14, where it is modelled anyway.
 VARIANTS = {
-    "default": {},
-    "buf8": {"buffer_min": 8},
+    "default": {"lock_overlay": True},
+    "buf8": {"buffer_min": 8, "lock_overlay": True},
     "lock": {"lock_overlay": True},
 }
 
@@ -22,6 +26,7 @@ GLOBAL_ASSUMPTIONS = [
     "overlay: fnv::FnvHashSet -> Vec-backed set with the same contains/insert/default (never iterated in the crate)",
     "environment: ArrFile backing store is infallible and has room (kani::assume), written contiguously",
     "Kani models the dev profile: overflow checks and debug assertions are on",
+    "overlay: std::sync::RwLock -> single-threaded model lock with the same sequential semantics (harness/vlock.rs); it also asserts the C14 lock discipline",
 ]
 
 H = {}
